@@ -14,5 +14,9 @@ CLAIMS["C15"] = {
     "text": "Proof (all registry states, names, classes; unbounded) that register / unregister / get / all / clear refine a dictionary (exact AlreadyRegistered / NotRegistered conditions, same-class re-registration is a dictionary no-op, state unchanged on every exceptional exit incl. TagProtectedError / ValueError from the formatter), preserve the representation invariant tying _registry, _tags and Library.tags together, remove the tag from the library exactly when no other registered name uses it, and never assign or delete a protected tag.",
     "note": "Trusted: django Library.tag stub (stores into Library.tags), tag formatter = deterministic function of (registry, name) that may raise ValueError, A-LIB, private Library precondition, pyvc encoding. Sets/dicts are by-value with exact cardinality.",
 }
-NOT_APPLICABLE = {p: NOT_BUILT for p in ["C01","C02","C03","C04","C05","C06","C09","C10","C11","C12","C13","C14","C16","C17","C19","C20"]}
+CLAIMS["C05"] = {
+    "text": "Proof (all registry states, contexts, ids; unbounded) that register_provide_reference / unregister_provide_reference / managed_provide_cache preserve the global invariant of the three provide registries with a ghost set of Active providers (an Active or referenced provider's data is always in provide_cache - 'however many siblings share the provider'), with exact set/map postconditions (registered under every visible inject key; removed everywhere; provider data deleted exactly when unreferenced, never while Active), on normal and exceptional exit of the provider body.",
+    "note": "Trusted: Django Context stub (layers, top-most lookup, flatten), A-ID (component ids are not provider ids), the with-body is modelled as arbitrary GInv-preserving steps that may raise anything. Composition to the property statement (layer stack mirrors lexical nesting; registration precedes get_context_data) is argued in DESIGN.md, not machine-checked. get/set_provided_context_var and ProvideNode.render not yet under contract.",
+}
+NOT_APPLICABLE = {p: NOT_BUILT for p in ["C01","C02","C03","C04","C06","C09","C10","C11","C12","C13","C14","C16","C17","C19","C20"]}
 NOT_APPLICABLE["C07"] = "contracts over sequential calls cannot quantify over thread interleavings; the library holds no locks, so a rely/guarantee encoding would fail every stability obligation and decide nothing (DESIGN.md section 4); exploring schedules is a different technique and is not substituted"
